@@ -255,7 +255,7 @@ class EvolvableMLP(EvolvableModule):
             numb_new_nodes = np.random.choice([16, 32, 64], 1)[0]
 
         # HARD LIMIT
-        if self.hidden_size[hidden_layer] - numb_new_nodes > self.min_mlp_nodes:
+        if self.hidden_size[hidden_layer] - numb_new_nodes >= self.min_mlp_nodes:
             self.hidden_size[hidden_layer] -= numb_new_nodes
 
         return {"hidden_layer": hidden_layer, "numb_new_nodes": numb_new_nodes}
